@@ -355,6 +355,8 @@ class Machine:
                 if lv and lv[0] == 'var':
                     self.cells[(id(env), lv[1])] = env
                     return ('addr', 'var', lv[1], id(env))
+                if lv and lv[0] == 'mem' and isinstance(lv[1], tuple) and lv[1][0] == 'p':
+                    return lv[1]        # &p[i] is p + i
                 return ('addr',) + tuple(lv[:4]) if lv else SYM
             if is_incdec(n):
                 lv = self.lvalue(fn, n['e'], env, depth)
